@@ -389,7 +389,9 @@ pub fn gen_doc(rng: &mut Rng) -> DocD {
             d.fonts.push(FontD { slot, name: format!("builtin {slot}"), height: 16, builtin: Some(1 + rng.usize(42)), data: vec![], sauce_name: None });
         } else {
             let h = *rng.pick(&[8u8, 14, 16, 16, 19, 32]);
-            d.fonts.push(FontD { slot, name: "Cüstom ✓".into(), height: h, builtin: None, data: rng.bytes(256 * h as usize), sauce_name: None });
+            // one in four with 512 glyphs (the PSF2 encoding of the FONT_n chunk carries a glyph count)
+            let glyphs = if rng.chance(1, 4) { 512 } else { 256 };
+            d.fonts.push(FontD { slot, name: "Cüstom ✓".into(), height: h, builtin: None, data: rng.bytes(glyphs * h as usize), sauce_name: None });
         }
     }
     for i in 0..(1 + rng.usize(6)) {
@@ -464,7 +466,7 @@ impl Prop for C07 {
         "C07"
     }
     fn rule(&self) -> &'static str {
-        "documents with 1..=6 layers (about one in 400 documents is a single 150..=200 x 90..=120 layer of long-form cells - over 300 KB of layer data, one in four of these 400 x 470..=500: over the writer's limit of 3,000,000 bytes per chunk - hidden / locked / alpha-locked in every combination - or, one time in three, a text layer under an image layer whose picture is 3 MB to 7.2 MB of RGBA bytes: exactly one writer chunk of 3,000,000 bytes, one pixel more, and over two chunks; one in eight above the first an image layer: role Image with a sixel picture of up to 40x30 pixels; sizes 0..=200 x 0..=120, mostly <= 40x20 because every save PNG-encodes a preview; offsets -50..=50; all combinations of visible / locked / position-locked / alpha / alpha-locked; modes normal/chars/attributes; colour tags; transparency; Unicode and 300-character titles; rows ending before and at the layer width; short-form and long-form cells incl. characters > 0xFFFF, colours > 255 and the transparent colour; attribute flags), palettes of 1..=300 colours (also prefixes, the whole, extensions and one-colour variations of the stock DOS palette), font slots from {0,1,2,5,42,100,255,256,300} with built-in pages 0..=42 (also in slot 0: names longer than the SAUCE font field) and custom fonts of height 8/14/16/19/32 (also in slot 0, whose size the preview uses, and also under the stock font's name), every referenced page present, with and without SAUCE, are saved with Buffer::to_bytes(\"icy\", lossles_output) and loaded with Buffer::from_bytes; a field-by-field comparator checks buffer size and modes, every layer property incl. the role (image layers: picture size, scales and RGBA bytes), every cell inside the layer size (invisible cells as invisible only), the palette, every font slot (name, size, length, glyph bytes) and the SAUCE fields. distinct_nontrivial = distinct (size, layer shapes and flags, fonts, palette length) documents"
+        "documents with 1..=6 layers (about one in 400 documents is a single 150..=200 x 90..=120 layer of long-form cells - over 300 KB of layer data, one in four of these 400 x 470..=500: over the writer's limit of 3,000,000 bytes per chunk - hidden / locked / alpha-locked in every combination - or, one time in three, a text layer under an image layer whose picture is 3 MB to 7.2 MB of RGBA bytes: exactly one writer chunk of 3,000,000 bytes, one pixel more, and over two chunks; one in eight above the first an image layer: role Image with a sixel picture of up to 40x30 pixels; sizes 0..=200 x 0..=120, mostly <= 40x20 because every save PNG-encodes a preview; offsets -50..=50; all combinations of visible / locked / position-locked / alpha / alpha-locked; modes normal/chars/attributes; colour tags; transparency; Unicode and 300-character titles; rows ending before and at the layer width; short-form and long-form cells incl. characters > 0xFFFF, colours > 255 and the transparent colour; attribute flags), palettes of 1..=300 colours (also prefixes, the whole, extensions and one-colour variations of the stock DOS palette), font slots from {0,1,2,5,42,100,255,256,300} with built-in pages 0..=42 (also in slot 0: names longer than the SAUCE font field) and custom fonts of height 8/14/16/19/32 with 256 or 512 glyphs (also in slot 0, whose size the preview uses, and also under the stock font's name), every referenced page present, with and without SAUCE, are saved with Buffer::to_bytes(\"icy\", lossles_output) and loaded with Buffer::from_bytes; a field-by-field comparator checks buffer size and modes, every layer property incl. the role (image layers: picture size, scales and RGBA bytes), every cell inside the layer size (invisible cells as invisible only), the palette, every font slot (name, size, length, glyph bytes) and the SAUCE fields. distinct_nontrivial = distinct (size, layer shapes and flags, fonts, palette length) documents"
     }
     fn meta(&self, ctx: &Ctx) -> Value {
         json!({"floor_evaluations": 500, "floor_distinct": ctx.tier.pick(500u64, 10000u64),
